@@ -155,7 +155,7 @@ SPEC = dict(
     ],
     classify=classify,
     rule=("pat cases: 8 fixed witnesses (non-normal-form patterns, 64 groups); ALL patterns `/` + <= 3 (quick) / <= 4 (thorough) "
-          "tokens over {a, b, /, *, ?, {, `,`, }, **}, each against ALL clean paths (no empty segment) of length <= 4 over a b /; "
+          "tokens over {a, b, /, *, ?, {, `,`, }, **}, each against ALL clean paths (no empty segment) of length <= 3 over a b / plus /a/b /a/a /b/a /aab /ab/ /a/b/ (quick) / ALL clean paths of length <= 4 (thorough); "
           "5 fixed + every 10th random case from the nested-group family {{X},{X,y}} / {{X,y},{X}} / {p{X},p{X,y}} (alternatives sharing a "
           "prefix of alternatives, either order, optional third alternative, heads /foo/ /Pictures/ ..., tails /x /** .bak) against one "
           "path per alternative including paths only the extra alternative y matches; "
@@ -170,7 +170,7 @@ SPEC = dict(
     exhaustive=dict(quick=True, thorough=True),
     trusted_base=[
         "hand-written model coq/models/Patterns.v of interfaces/prompting/patterns (scan, parseSeq/parseAlt as a shift-reduce pass, optimize, nodeEqual, NumVariants in saturating int64, Render/NextVariant enumeration order, prepareVariantForParsing, parsePatternVariant, Compare, HighestPrecedencePattern), tied by the differential run (harness/overlay/interfaces/prompting/patterns/zz_verif_c37_test.go)",
-        "doublestar.Match (third party) is NOT modelled: the match part of the property is evaluated on the implementation only (monitor), and is a Section variable `gm` in the theorems",
+        "doublestar.Match v4.6.1 (third party) is ported function by function as `ds_match` (doMatchWithSeparator, isZeroLengthPattern, indexMatchedClosingAlt, indexNextAlt; no character classes, ASCII, pattern errors = no match) and PathPatternMatches as `path_pattern_matches`; the port is pinned by the differential run: its verdict is compared with the real PathPatternMatches for the original pattern and for every rendered variant on every generated path. The guarded match theorem keeps a generic matcher `gm`; the refuted statements are closed facts about the port",
         "regexp submatching is NOT modelled: the driver reads the submatches of each variant's regex and the model's Compare takes them as input; the precedence theorems hold for an arbitrary decomposition",
         "patterns and paths are ASCII (the Go code iterates runes; the literal U+2051 escaping of prepareVariantForParsing is not exercised)",
     ],
